@@ -217,7 +217,10 @@ pub fn gen_layout(src: &mut Src) -> Layout {
                 let which = cands[src.below(cands.len())];
                 let cur = u32::from_be_bytes(boxes[which].0.payload[..4].try_into().unwrap());
                 let delta = src.range(1, 5) as u32;
-                let newidx = ((cur & 0x7fff_ffff).wrapping_add(delta) & 0x7fff_ffff) | (cur & 0x8000_0000);
+                // too large (a gap) or too small (a repeated / earlier index)
+                let base = cur & 0x7fff_ffff;
+                let moved = if src.bool() && base > 0 { base - delta.min(base) } else { base.wrapping_add(delta) };
+                let newidx = (moved & 0x7fff_ffff) | (cur & 0x8000_0000);
                 boxes[which].0.payload[..4].copy_from_slice(&newidx.to_be_bytes());
                 applied = Some(kind);
             }
